@@ -448,16 +448,18 @@ def run(tier, seed=0, replay=None, procs=None, only=None):
         cs = [c for c in cs if re.search(only, c.name)]
     gv, ge, gs, nq, gt = grammar_checks(tier)
     fv = guess_format_checks()
-    t1 = time.time()
-    cv, notes = cli_equivalence(tier)
-    print(f'[C20] grammar queries {gt:.1f}s, cli equivalence {time.time() - t1:.1f}s')
+
+    def late():
+        t1 = time.time()
+        cv, notes = cli_equivalence(tier)
+        print(f'[C20] grammar queries {gt:.1f}s, cli equivalence {time.time() - t1:.1f}s')
+        return cv, [], dict(cli_equivalence_datasets=notes)
     return main_run(
-        PROP, tier, cs, functions=functions(), seed=seed, procs=procs,
-        extra_violations=gv + fv + cv, extra_errors=ge,
+        PROP, tier, cs, functions=functions(), seed=seed, procs=procs, late_checks=late,
+        extra_violations=gv + fv, extra_errors=ge,
         extra_evidence=dict(regex_inclusion_and_witness_queries=nq, regex_solver_time_s=round(gt, 2), grammar_samples=gs,
                             bounds_re_pattern=cu.bounds_re.pattern,
-                            call_site_methods={f.__name__: call_site_method(f) for f in (cu.geometry_argument, cu.bounds_argument)},
-                            cli_equivalence_datasets=notes),
+                            call_site_methods={f.__name__: call_site_method(f) for f in (cu.geometry_argument, cu.bounds_argument)}),
         bounds=dict(
             grammar='argument strings: every ASCII string (unbounded length) for the two language inclusions; '
                     'numeral-to-float and argument order on solver-chosen witnesses (length <= 40)',
